@@ -1,4 +1,5 @@
 import BespokeVerif.Model.Layout
+import BespokeVerif.Lemmas.StmtSize
 import BespokeVerif.Lemmas.Bits
 /-!
   Helper lemmas for C02 / C05: `alignUp`, zones and their cursors, inversion of `firstPassStep`,
@@ -158,6 +159,7 @@ def placeOf (cfg : Cfg) (zs : Zones) (L : Labels) (ln : Line) (z : Zone) : Excep
   | .fill cnt _ => (valueE env cnt).bind fun n => .ok (cur, n)
   | .zerountil a => (valueE env a).bind fun t => .ok (cur, if t ≥ cur then t - cur + 1 else 0)
   | .instr _ args => .ok (cur, ((1 + args.foldl (fun s a => s + a.2) 0 : Nat) : Int))
+  | .isa mn fs => (isaSize cfg mn fs).bind fun n => .ok (cur, (n : Int))
   | .org e zn =>
     (valueE env e).bind fun v =>
       let value := match zn with | none => v | some _ => z.start + v
@@ -195,6 +197,7 @@ theorem firstPassStep_eq (cfg : Cfg) (zs : Zones) (L : Labels) (ln : Line) :
     all_goals (try rfl)
     case fill cnt val => cases valueE (envOf L cfg.regs sc) cnt <;> rfl
     case zerountil a => cases valueE (envOf L cfg.regs sc) a <;> rfl
+    case isa mn fs => cases isaSize cfg mn fs <;> rfl
     case org e zn =>
       cases valueE (envOf L cfg.regs sc) e with
       | error er => rfl
@@ -280,6 +283,10 @@ theorem placeOf_addr {cfg : Cfg} {zs : Zones} {L : Labels} {ln : Line} {z : Zone
     | ok v => rw [hv] at h; cases h; rfl
   case zerountil t =>
     cases hv : valueE (envOf L cfg.regs sc) t with
+    | error e => rw [hv] at h; cases h
+    | ok v => rw [hv] at h; cases h; rfl
+  case isa mn fs =>
+    cases hv : isaSize cfg mn fs with
     | error e => rw [hv] at h; cases h
     | ok v => rw [hv] at h; cases h; rfl
   all_goals (cases h; rfl)
@@ -439,6 +446,55 @@ theorem instr_args_length (little : Bool) (env : String → Option Int) :
       · simp only [hf, if_false] at h
         cases h
 
+/-- an ISA statement (instruction or macro invocation) emits exactly the bytes that were reserved
+    for it from selection alone, for every label environment and address -/
+theorem isaBytes_length {cfg : Cfg} {env : String → Option Int} {addr : Int} {mn : String} {fs : List Form}
+    {bs : List Nat} {n : Nat} (hs : isaSize cfg mn fs = .ok n) (hb : isaBytes cfg env addr mn fs = .ok bs) :
+    bs.length = n := by
+  unfold isaSize at hs
+  unfold isaBytes at hb
+  cases ht : cfg.tbl.find? (·.1 == mn) with
+  | some xv =>
+    rcases xv with ⟨x, variants⟩
+    simp only [ht] at hs hb
+    cases ha : assembleStmt cfg.regs (cfgGz cfg) env addr variants fs with
+    | error e => simp [ha, Except.map] at hb
+    | ok r =>
+      rcases r with ⟨i, b⟩
+      simp only [ha, Except.map, Except.ok.injEq] at hb
+      subst hb
+      obtain ⟨v, m, hsel, hlen⟩ := assembleStmt_length ha
+      simp only [hsel, Except.ok.injEq] at hs
+      omega
+  | none =>
+    simp only [ht] at hs hb
+    cases hm : cfg.macros.find? (·.1 == mn) with
+    | none => simp [hm] at hs
+    | some xm =>
+      rcases xm with ⟨x, mvs⟩
+      simp only [hm] at hs hb
+      cases ha : assembleMacro cfg.regs (cfgGz cfg) env cfg.tbl addr mvs fs with
+      | error e => simp [ha, Except.map] at hb
+      | ok r =>
+        rcases r with ⟨i, b⟩
+        simp only [ha, Except.map, Except.ok.injEq] at hb
+        subst hb
+        unfold assembleMacro at ha
+        cases he : expandMacro cfg.regs (cfgGz cfg) mvs fs with
+        | error e => simp [he, bind, Except.bind] at ha
+        | ok es =>
+          rcases es with ⟨j, steps⟩
+          simp only [he, bind, Except.bind] at ha
+          simp only [he] at hs
+          cases hst : assembleSteps cfg.regs (cfgGz cfg) env cfg.tbl addr steps with
+          | error e => simp [hst] at ha
+          | ok b' =>
+            simp only [hst, Except.ok.injEq, Prod.mk.injEq] at ha
+            obtain ⟨_, rfl⟩ := ha
+            obtain ⟨sizes, hsz, hsum⟩ := assembleSteps_length hst
+            simp only [hsz, Except.ok.injEq] at hs
+            omega
+
 theorem lineBytes_length {cfg : Cfg} {zs : Zones} {L L₂ : Labels} {ln : Line} {z : Zone} {a s : Int}
     {bs : List Nat} (hp : placeOf cfg zs L ln z = .ok (a, s))
     (hb : lineBytes cfg L₂ { line := ln, addr := a, size := s } = .ok bs)
@@ -486,6 +542,13 @@ theorem lineBytes_length {cfg : Cfg} {zs : Zones} {L L₂ : Labels} {ln : Line} 
     | ok bl =>
       cases hb
       rw [List.length_cons, instr_args_length cfg.little _ args bl hm, Nat.add_comm]
+  case isa mn fs =>
+    cases hsz : isaSize cfg mn fs with
+    | error e => rw [hsz] at hp; cases hp
+    | ok n =>
+      rw [hsz] at hp
+      cases hp
+      rw [isaBytes_length hsz hb]
 
 theorem lineBytes_nonbyte {cfg : Cfg} {L₂ : Labels} {ln : Line} {a s : Int}
     (hbyte : isByteLine ln.stmt = false) :
